@@ -526,6 +526,43 @@ func c18Check(c *C, k c18Case, viaTemplate bool) bool {
 				return false
 			}
 		}
+		// the filter's VALUE (a number, a bool, a list - not its printed form) is what the next filter of a filter-tag
+		// chain receives
+		for _, fo := range []struct {
+			f string
+			p any
+		}{{"add", 1}, {"length", nil}, {"join", "-"}, {"first", nil}, {"last", nil}, {"yesno", "y,n"}, {"pluralize", nil}, {"default", "D"}, {"stringformat", "%v|%T"}, {"slice", ":2"}, {"divisibleby", 2}} {
+			var fp *pongo2.Value
+			fsrc := "{% autoescape off %}{% filter " + k.filter
+			ctx := pongo2.Context{"v": k.in}
+			if k.param != nil {
+				fsrc += ":p"
+				ctx["p"] = k.param
+			}
+			fsrc += "|" + fo.f
+			if fo.p != nil {
+				fp = pongo2.AsValue(fo.p)
+				fsrc += ":fp"
+				ctx["fp"] = fo.p
+			}
+			fsrc += " %}{{ v }}{% endfilter %}{% endautoescape %}"
+			w, werr := pongo2.ApplyFilter(fo.f, v, fp)
+			if werr != nil {
+				continue
+			}
+			fout, fcerr, fxerr := renderString(fsrc, ctx)
+			c.Eval(1)
+			if fcerr != nil || fxerr != nil || fout != w.String() {
+				d := desc()
+				d["template"] = fsrc
+				d["follow_up_filter"] = fo.f
+				d["template_output"] = q(fout)
+				d["applyfilter_composition_output"] = q(w.String())
+				d["error"] = errStr(fcerr) + errStr(fxerr)
+				c.Fail("routes-disagree", d)
+				return false
+			}
+		}
 	}
 	return true
 }
